@@ -8,7 +8,7 @@ BOUNDS = {'quick': 'seq_compare: all pairs; tracker: k=2 segments, every pair of
           'thorough': 'tracker: k=2 with W=4 (100 pairs) x 8 ISNs; k=3: the quick set of triples x ISN in {0xfffffffe, 0, 0x80000000}'}
 OUTSIDE = 'the legacy TCPStream follower; Flow::process_packet callbacks; stale segments before the ISN; streams longer than W; more than 3 segments'
 ASSUMPTIONS = ['the four libstdc++.so red-black-tree primitives are engine/models/rbtree.c (a line-by-line C port of libstdc++ tree.cc)']
-NRAND = {'quick': 30, 'thorough': 100}
+NRAND = {'quick': 30, 'thorough': 30}
 def full(W, *segs):
     cov = set()
     for x in segs: cov |= set(range(x >> 4, (x >> 4) + (x & 15)))
